@@ -141,6 +141,33 @@ def noMagic (d : List Nat) : Bool :=
   | a :: b :: c :: e :: _ => !(a == 0x36 && b == 0x04) && !(le32 a b c e == psf2Magic)
   | _ => true
 
+/-- the first 32 bytes read as a PSF2 header that describes the very font the data is the raw form of -/
+def psf2Overlay (d : List Nat) (h : Nat) : Bool :=
+  rd32 d 4 == some 0 && rd32 d 8 == some 0 && rd32 d 16 == some 256 && rd32 d 20 == some h && rd32 d 24 == some h &&
+    rd32 d 28 == some 8
+
+/-- the exact guard of the raw round trip of a 256-glyph font of height `h` -/
+def rawGuard (d : List Nat) (h : Nat) : Bool :=
+  match d with
+  | a :: b :: c :: e :: _ =>
+    if a == 0x36 && b == 0x04 then false
+    else if le32 a b c e == psf2Magic then psf2Overlay d h
+    else true
+  | _ => true
+
+/-! ### one glyph on the clipboard: `get_clipboard_data` / `Glyph::from_clipbard_data` -/
+def clip16 (n : Nat) : List Nat := [n % 256, n / 256 % 256]
+
+/-- `get_clipboard_data(ch)`: `size.width as u16`, `size.height as u16` (little endian), then the glyph rows -/
+def BitFont.clipData (f : BitFont) (k : Nat) : Option (List Nat) :=
+  (f.get k).map fun g => clip16 (asU32 f.w % 65536) ++ clip16 (asU32 f.h % 65536) ++ g
+
+/-- `Glyph::from_clipbard_data`: ((width, height), rows); fewer than four bytes: slice out of range -/
+def fromClip (data : List Nat) : Res ((Nat × Nat) × Glyph) :=
+  match data with
+  | a :: b :: c :: d :: rest => .ok ((a + 256 * b, c + 256 * d), rest)
+  | _ => .panic
+
 /-- IcyDraw `write_utf8_encoded_string` / `read_utf8_encoded_string` (font names, layer titles) -/
 def writeString (s : List Nat) : List Nat := u32le s.length ++ s
 def readString (data : List Nat) : Res (List Nat × Nat) :=
